@@ -7,6 +7,7 @@ from amaranth.lib.fifo import AsyncFIFO, AsyncFIFOBuffered
 from amaranth.back import rtlil
 from amaranth.sim import Simulator
 
+from vlib.reuse import elaborated_before
 from vlib.runner import Part, Mismatch, HarnessError
 from vlib.simdrv import snapshot, restore
 from vlib.gen_expr import INT, BOOL, PICK
@@ -33,13 +34,15 @@ CLASSES = {"AsyncFIFO": AsyncFIFO, "AsyncFIFOBuffered": AsyncFIFOBuffered}
 OUTS = ["w_rdy", "r_rdy", "r_data", "r_level", "w_level"]
 
 
-def make(kind, depth, width, exact=False):
+def make(kind, depth, width, exact=False, case=None):
     with warnings.catch_warnings():
         warnings.simplefilter("ignore")
         m = Module()
         rcd, wcd = ClockDomain("read"), ClockDomain("write")
         m.domains += [rcd, wcd]
         m.submodules.fifo = fifo = CLASSES[kind](width=width, depth=depth, exact_depth=exact)
+        if case is not None:
+            elaborated_before(case, m, every=3)
         sim = Simulator(m)
     return sim, rcd, wcd, fifo
 
@@ -195,7 +198,7 @@ def longest_run(steps, ev):
 
 def walk_body(ctx, case):
     kind, depth, width = case["kind"], case["depth"], case["width"]
-    sim, rcd, wcd, fifo = make(kind, depth, width)
+    sim, rcd, wcd, fifo = make(kind, depth, width, case=case)
     fail = []
     st_ = dict(full=False, emptied=False, moved=0)
 
